@@ -116,6 +116,13 @@ func (h *histRun) stop() bool {
 	msg, _ := h.f.exitInfo()
 	sc := h.track.sample("after stop")
 	h.res.Logf("follower stopped: err=%q sidecar=%d replica max=%d", msg, sc, h.p.max())
+	if strings.Contains(msg, "cannot resume follow mode") {
+		// The resume validation refused before the cancellation took effect: this
+		// error does not depend on the stop request.
+		classifyExit(h.res, "stop right after restart", msg, h.startedWithDB, h.startedWithDB, h.sidecarAtStart, h.p.max(), snapshotFloor(h.p.e.RepPath), h.s.Cfg.String())
+		h.f = nil
+		return false
+	}
 	if msg != "" {
 		h.res.Count("graceful_stop_returned_error", 1) // e.g. cancelled during the initial restore: allowed
 		if os.Getenv("VERIF_C16_KEEP") != "" {
